@@ -5,64 +5,64 @@ import os
 
 V = os.path.dirname(os.path.dirname(os.path.abspath(__file__)))
 CHECKS = {
-    'C10': ('four monitors on one stress workload (2-16 application threads x all thread-safe entry points x continuous uplink traffic x auto-flush, lock-level perturbation; tsan/asan/mon flavours): ThreadSanitizer reports in library code, contract monitor at every documented-lock accessor, history oracles (getter results equal a state that existed during the call, entity invariants, each queued message returned exactly once) and a lost-update oracle for read-modify-write commands with one writer per function',
-            'TSan suppresses only the four volatile lifecycle flags; glib uninstrumented (covered by contract monitor only); schedules are sampled',
-            'runtime monitoring: ThreadSanitizer + lock-contract monitor + linearizability-style history oracles under stress'),
-    'C11': ('link-time lock monitor over a systematic cross product (every public function x argument class x mode, all 256 uplink types on the receiver thread, every rejected-configuration class, sys_reset) and concurrent stress: held-set empty at every return and whenever the receiver is back at the read callback; union lock-order graph observed while running must be acyclic; self-wait / wait-for cycle detection with watchdog',
+    'C10': ('four monitors on one stress workload (2-16 application threads x all thread-safe entry points x continuous uplink traffic x auto-flush, lock-level perturbation; tsan/asan/mon flavours): ThreadSanitizer reports in library code, contract monitor at every documented-lock accessor, history oracles (getter results of every receiver-written entity kind equal a state that existed during the call, entity invariants, each queued message returned exactly once), a lost-update oracle for read-modify-write commands with one writer per function, strict decode + sequence scan of the shared downlink stream; directed preemption (a command / the receiver / a getter paused at each of its scheduling points while the other side runs); container lockset monitor (Eraser over glib containers); reduced scenarios under valgrind helgrind',
+            'TSan / helgrind ignore only the four volatile lifecycle flags; glib uninstrumented for TSan (container lockset monitor and helgrind cover it); schedules are sampled, plus one directed preemption per scenario step',
+            'runtime monitoring: ThreadSanitizer + helgrind + lock-contract and container-lockset monitors + linearizability-style history oracles under stress and directed preemption'),
+    'C11': ('link-time lock monitor over a systematic cross product (every public function x argument class x mode, all 256 uplink types and field sweeps (every value of one data byte of valid feedback about configured equipment) on the receiver thread, both user queues driven over their bound, every rejected-configuration class, sys_reset) and concurrent stress: held-set empty at every return and whenever the receiver is back at the read callback; union lock-order graph observed while running must be acyclic; self-wait / wait-for cycle detection with watchdog',
             'acyclicity of the observed order only; reader-preferring rwlocks (recursive read acquisition is not an edge); allocation-failure paths not driven',
             'runtime monitoring: lock-order graph, held-set balance and wait-for-cycle monitors over systematic + stress workloads'),
-    'C12': ('hostile uplink streams from four generators (noise, corrupted valid traffic, grammar-generated CRC-valid packets with adversarial length/address/type/field values, delimiter-less runs of 255-4096 bytes) in debug and normal mode against generated configurations; zero ASan/UBSan reports, normal exit, and after every stream a probe packet must be delivered; batches per process with re-run of the tail after a crash',
+    'C12': ('hostile uplink streams from five generators (noise, corrupted valid traffic, grammar-generated CRC-valid packets with adversarial length/address/type/field values, field sweeps over valid feedback about configured equipment, delimiter-less runs of 255-4096 bytes) in debug and normal mode against generated configurations, with host commands issued in between; zero ASan/UBSan reports, normal exit, and after every stream a probe packet must be delivered; batches per process with re-run of the tail after a crash',
             'gcc ASan (512 B red zones) + UBSan bounds-strict; probe preceded by a resync delimiter; uninitialised reads not part of the statement',
             'runtime monitoring: ASan/UBSan + liveness probe oracle over generated hostile byte streams'),
-    'C13': ('per case (own process): six identical start attempts with 1-3 structure-aware mutations of a valid configuration triple (answering or silent interface), then a start with a valid configuration; return value in {0,1}, ASan/UBSan/LSan, held-set empty at return, no wait-for cycle / watchdog, no thread alive after a failed start, allocated bytes not growing, valid restart verified through its getters',
+    'C13': ('per case (own process): six identical start attempts with 1-3 structure-aware mutations of a valid configuration triple (answering or silent interface), then a start with a valid configuration; return value in {0,1}, ASan/UBSan/LSan, held-set empty at return, no wait-for cycle / watchdog / virtual-time bound, no thread alive after a failed start, allocated bytes and open file descriptors not growing, no non-constant log format, valid restart verified through its getters',
             'watchdog 120 s per case, expiry inside bidib_start_pointer is a violation; leak criterion = growth at each of the last three of six identical attempts + LSan',
             'runtime monitoring: ASan/UBSan/LSan + lock/thread/heap monitors over mutated configurations'),
     'C17': ('memcheck V-bit probes (VALGRIND_GET_VBITS from the harness) of every API-meaningful field of every getter result for known, unknown and NULL ids; ASan keep / mutate / stop / re-read / free-once probe of kept results; field-by-field equality of bidib_get_state() with the single-entity getters at every snapshot',
             'gated fields probed only when their flag is set; padding never probed; valgrind 3.19 memcheck; gcc ASan/LSan',
             'runtime monitoring: valgrind memcheck V-bit probes + ASan/LSan + snapshot cross-check'),
-    'C15': ('model node tree (address = path of local addresses, lost interface takes its subtree): connectivity getters after start (incl. a table change during enumeration) and after each of 0-30 node-new/node-lost notices, one NODE_CHANGED_ACK(version) to the announcer per notice, a ping per board addressed to the model\'s current address or refused',
+    'C15': ('model node tree (address = path of local addresses, lost interface takes its subtree): connectivity getters after start (incl. a table change during enumeration) and after each of 0-30 node-new/node-lost notices (incl. repeated ones), after an address swap followed by a second enumeration (sys_reset), one NODE_CHANGED_ACK(version) to the announcer per notice, a ping per board addressed to the model\'s current address or refused',
             'simulated bus node table updated alongside scripted notices; announcers of depth <= 2',
             'runtime monitoring: tree-model oracle over getter snapshots and decoded wire + ASan/UBSan'),
-    'C16': ('stop transcript vs. model per connected track output; link-time thread monitor (create/join exactly once, none alive after stop or failed start); heap conservation over six identical sessions (ASan allocator statistics, LSan); idempotent stop/start; probe session as session k vs. the same session in a fresh process (per-node transcripts, snapshots, return values)',
+    'C16': ('stop transcript vs. model per connected track output; link-time thread monitor (create/join exactly once, none alive after stop or failed start); heap and file-descriptor conservation over six identical sessions (ASan allocator statistics, LSan); idempotent stop/start (incl. the auto-flush period of the running session); probe session as session k vs. the same session in a fresh process (per-node transcripts, snapshots, return values)',
             'pthread_create/join interposed with ld --wrap; __sanitizer_get_current_allocated_bytes; decoded message lists compared per node',
             'runtime monitoring: lifecycle monitors (threads, heap, transcript, session equivalence) + ASan/LSan'),
-    'C19': ('per occupancy report of SecAck / non-SecAck boards the decoded wire at the next quiescent point without any flush step: exactly one mirror with identical number/payload, none for boards without feature 0x03>0; stalled or budget-blocked board: mirrors owed and delivered in order exactly once after release',
+    'C19': ('per occupancy report of SecAck / non-SecAck boards the decoded wire at the next quiescent point without any flush step: exactly one mirror with identical number/payload (packets with several reports from several nodes, malformed last message), none for boards without feature 0x03>0 (absent boards, address reuse, re-login); stalled or budget-blocked board: mirrors owed and delivered in order exactly once after release',
             'a report counts from the quiescent point after it was fed; known finding: position mirror lacks the address bytes',
             'runtime monitoring: per-event wire oracle at quiescent points + ASan/UBSan'),
-    'C20': ('order constraints and multiset equality over the decoded downlink transcript of a start and of bidib_send_sys_reset: FEATURE_SET only to connected configured boards and before SYS_ENABLE, GO to every connected track output, then every configured initial point/signal/peripheral aspect and train function exactly once (C09 encoding), nothing for absent boards',
+    'C20': ('order constraints and multiset equality over the decoded downlink transcript of a start and of bidib_send_sys_reset: FEATURE_SET only to connected configured boards and before SYS_ENABLE, GO to every connected track output, then every configured initial point/signal/peripheral aspect and train function exactly once (C09 encoding), nothing for absent boards - also when the switch-on answer is lost / reports OFF and when a board is reported lost during start-up',
             'speed-0/all-zero CS_DRIVE and the library\'s own queries unconstrained; encoder of C09',
             'runtime monitoring: transcript oracle (order + multiset) over decoded wire + ASan/UBSan'),
-    'C14': ('generator emits configurations together with their abstract description: valid ones must be accepted and every enumeration getter and the initial snapshot must equal the description; each single-fault class of the statement (26 classes) applied at sampled applicable positions must give return value 1',
+    'C14': ('generator emits configurations together with their abstract description: valid ones must be accepted and every enumeration getter and the initial snapshot must equal the description; each single-fault class of the statement (27 classes, duplicates against adjacent and non-adjacent elements, DCC addresses over the full 16 bits, identifiers with printf conversions) applied at sampled applicable positions must give return value 1',
             'documented layout = key order/optional parts of example/config and the test configs; cross-kind collisions not generated',
             'runtime monitoring: description-vs-getter oracle over generated configurations and single-fault mutations + ASan/UBSan + lock monitor'),
-    'C07': ('reference state fold over the recorded uplink/downlink history compared field by field with bidib_get_state() and every single-entity getter at sampled snapshots; generated configurations x node trees x histories of state-bearing messages with full value ranges, interleaved with drive / DCC-accessory commands',
+    'C07': ('reference state fold over the recorded uplink/downlink history compared field by field with bidib_get_state() and every single-entity getter at sampled snapshots; generated configurations x node trees x histories of state-bearing messages with full value ranges (1-4 messages per packet, arbitrary sequence numbers, repeated reports, bad-CRC packets without effect, feedback during start-up), interleaved with drive / DCC-accessory commands',
             'reference fold vlib/statemodel.py; undocumented initial values of DCC accessories unconstrained until first written; gcc ASan/UBSan',
             'runtime monitoring: reference-model oracle over recorded message history vs. getter snapshots + ASan/UBSan'),
-    'C08': ('per-snapshot consistency (presence/position/orientation vs. segment address lists) after every processed report plus the reference fold; concurrent part: known state sequence S0..Sn (single receiver, one message per packet) and call/return-stamped getter results that must equal some Si in the window, train data never older than segment data (asan+tsan)',
+    'C08': ('per-snapshot consistency (presence/position/orientation vs. segment address lists) after every processed report plus the reference fold; concurrent part: known state sequence S0..Sn (single receiver, one message per packet) and call/return-stamped getter results that must equal some Si in the window, train data never older than segment data (asan+tsan); directed variant: the receiver paused at each scheduling point of one report while the getters are called; detector boards dropping off the bus',
             'processing of packet j lies between its rxc/rxdone events; reference fold; perturbation at lock operations',
             'runtime monitoring: history-vs-model atomicity oracle over stamped getter results + snapshot invariants + TSan'),
-    'C09': ('model encoder from the abstract configuration: per high-level command the return value and the decoded wire up to the next quiescent point (every id x aspect, every speed, every function bit with history, unknown/disconnected/NULL/out-of-range), snapshots against the reference fold after error commands',
+    'C09': ('model encoder from the abstract configuration: per high-level command the return value and the decoded wire up to the next quiescent point (every id x aspect, every speed, every function bit with history, unknown / near-miss / disconnected / NULL / out-of-range, boards lost or moved to another address by notices), snapshots against the reference fold after error commands',
             'encoder in vlib/props/C09.py written from header docs and bidib_messages.h; accessory numbers/aspect values in 0..127',
             'runtime monitoring: spec-encoder oracle over decoded wire and getter snapshots + ASan/UBSan'),
-    'C04': ('reference flow-control model with the stall set over address prefixes compared with the wire at a checkpoint after every step (nested stalls in both orders, repeated notices, unstall without stall, budget interaction); stress variant with sender threads after a processed stall notice (asan+tsan)',
+    'C04': ('reference flow-control model with the stall set over address prefixes compared with the wire at a checkpoint after every step (nested stalls in both orders, repeated notices, unstall without stall, budget interaction incl. leftovers answered during a stall, virtual time passing); stress variant with sender threads after a processed stall notice (asan+tsan)',
             'reference model vlib/flow.py; a stall notice counts from the quiescent point after it was fed',
             'runtime monitoring: reference-model oracle over recorded wire/uplink history + stress under TSan'),
-    'C02': ('reference receiver decoder applied to the same corrupted byte stream decides which packets are good; delivered messages (debug-mode queue) must equal them in order, once; four chunkings incl. gaps after escapes; round trip of the sender\'s own output',
+    'C02': ('reference receiver decoder applied to the same corrupted byte stream decides which packets are good; delivered messages (debug-mode queue) must equal them in order, once; four chunkings incl. gaps after escapes; normal-mode histories (multi-message packets from senders on all address levels, judged through their state effect); round trip of the sender\'s own output',
             'reference decoder in vlib/model.py; packets <= 255 bytes (longer ones are C12); gcc ASan/UBSan',
             'runtime monitoring: reference-decoder oracle over fed byte streams vs. delivered messages + ASan/UBSan'),
-    'C03': ('exact reference flow-control model for clean single-submitter histories compared with the wire at every checkpoint (budget, held FIFO, release after answers and after expiry under virtual time); two-sided-safe lower bound on outstanding bytes for duplicated/out-of-order answers and for sender threads racing the receiver (asan+tsan)',
+    'C03': ('exact reference flow-control model for clean single-submitter histories compared with the wire at every checkpoint (budget, held FIFO, release after answers and after expiry under virtual time; histories mixing stall notices with budget deferral); two-sided-safe lower bound on outstanding bytes for duplicated/out-of-order answers and for sender threads racing the receiver (asan+tsan)',
             'own request->answer/size table; virtual time() via link-time wrapper; expiry probed at +1 s/+3 s with the opportunity (uplink message) the library needs to notice it',
             'runtime monitoring: reference-model oracle over recorded wire/uplink history, virtual time, stress + TSan'),
-    'C06': ('destination table (README + statement) vs. where each of all 256 type codes is found (message/error/intern queue or consumed) in both modes; queue bound/drop-oldest/FIFO model at fill levels around 128; exactly-once over 1-8 reader threads racing the receiver (asan with LSan, tsan)',
+    'C06': ('destination table (README + statement) vs. where each of all 256 type codes is found (message/error/intern queue or consumed) in both modes; queue bound/drop-oldest/FIFO model at fill levels around 128; user-queue messages arriving during the start-up dialogue; exactly-once over 1-8 reader threads racing the receiver (asan with LSan, tsan)',
             'destination table vlib/uplink.py; MSG_VENDOR and undocumented booster states accept any single destination; intern queue read through bidib_read_intern_message',
             'runtime monitoring: routing/queue-model oracle over drained queues + ASan/LSan/TSan'),
-    'C01': ('strict reference decoder over everything handed to write_n, multiset/order equality with the reference encoding of every accepted call, capacity bound; sequential (debug), every capacity 0..255 (normal mode) and concurrent senders with auto-flush under asan+tsan',
+    'C01': ('strict reference decoder over everything handed to write_n, multiset/order equality with the reference encoding of every accepted call, capacity bound; sequential (debug), every capacity 0..255 and the staging-buffer boundary (normal mode), concurrent senders with auto-flush under asan+tsan, directed preemption of a sender / flush',
             'reference codec (bitwise CRC) and spec table in vlib/; simulated bus answers every request; gcc ASan/UBSan/TSan',
             'runtime monitoring: reference-decoder oracle over recorded wire bytes + ASan/UBSan/TSan'),
-    'C05': ('per-node sequence-number oracle over the decoded wire under 2-16 sender threads, budget deferral released by the receiver thread, 255->1 wrap, lock-level perturbation, asan+tsan',
+    'C05': ('per-node sequence-number oracle over the decoded wire under 2-16 sender threads, budget deferral released by the receiver thread, 255->1 wrap, lock-level perturbation, asan+tsan; directed two-thread sweep over every scheduling point of a send; the workloads of C03/C04/C09/C15/C16/C19/C20 (library-internal submitters, several sessions) judged per session',
             'reference decoder; perturbation at every lock operation via link-time wrappers; schedules are sampled, not enumerated',
             'runtime monitoring: ordering oracle over recorded wire history under stress + TSan'),
-    'C18': ('boundary sweep of every public bidib_send_* function against an independent spec table (header docs + bidib_messages.h): decoded wire after each call, ASan/UBSan on exact-size argument buffers',
+    'C18': ('boundary sweep of every public bidib_send_* function against an independent spec table (header docs + bidib_messages.h): decoded wire after each call, ASan/UBSan on exact-size argument buffers (mixed content incl. zero bytes); re-entrancy sweep: every function called by two threads with different arguments, one paused at its first scheduling points',
             'spec table vlib/spec_lowlevel.py; gcc ASan/UBSan red zones (512 B); reference decoder; low-level debug mode session',
             'runtime monitoring: spec-table oracle over decoded wire + ASan/UBSan'),
 }
